@@ -66,6 +66,8 @@ theorem status_let_step_core (env env' : Env) (e e2 : Expr) (rest : List Expr) (
   rw [letLoop]
   unfold runnerArithm
   rw [h]
+  simp only []
+  rw [letLoop, letLoop]
 
 theorem errors_iff_binArit_core (op : BinOp) (x y : Int) (hop : plainBin op = true) :
     (∃ err, binArit op x y = .err err) ↔
